@@ -135,6 +135,9 @@ static void check_file_against_model(Ctx &c, const std::string &name, const Save
     double dtol = tol_of(sf.dprec), ftol = sf.fprec >= 1000 ? 0 : 0.6 * pow(10.0, 1 - sf.fprec);
     int ports = m.C;
     if (sf.filetype == VNADATA_FILETYPE_TOUCHSTONE1 || sf.filetype == VNADATA_FILETYPE_TOUCHSTONE2) {
+	// (generated names carry the object's port count; a minimised plan can lose the operations that gave the
+	// object its shape: what such a file "denotes" is then not defined and not judged)
+	if (sf.filetype == 1 && ports_from_name(name) > 0 && ports_from_name(name) != ports) { c.count("probe.extension_port_mismatch_skipped"); return; }
 	TsFile t = read_touchstone(text, sf.filetype == 1 ? ports_from_name(name) : -1);
 	if (!t.ok) { bad("not readable as Touchstone: " + t.error); return; }
 	if ((sf.filetype == 2) != (t.version == 2)) { bad(strf("file version %d does not match the object's file type %d", t.version, sf.filetype)); return; }
